@@ -22,6 +22,7 @@ import (
 	"os/exec"
 	"path/filepath"
 	"runtime/debug"
+	"sort"
 	"strings"
 	"sync"
 	"time"
@@ -281,6 +282,53 @@ func driveC19(o opts) error {
 
 	// ---- part A
 	targets := decTargets()
+	// a grid first, independent of the seed: every hostile leaf at every position of a valid encoding of every wire
+	// type (and on its own) - decoding returns a value or an error
+	{
+		var hostile []interface{}
+		for _, h := range []string{`{}`, `{"a":1}`, `[]`, `[[]]`, `null`, `true`, `""`, `1.5`, `-1`, `["set"]`, `["map"]`, `["uuid"]`, `["uuid",{}]`, `["uuid",null]`,
+			`["named-uuid",1]`, `["set",[{}]]`, `["set",{}]`, `["set",[["set",[]]]]`, `["map",[[{},1]]]`, `["map",[[{"k":"v"},"x"]]]`, `["map",[[[],1]]]`, `["map",[[null,1]]]`,
+			`["map",[{}]]`, `["map",{}]`, `["map",[[1]]]`, `["map",[[1,2,3]]]`, `[null,null,null]`, `["==","==","=="]`} {
+			var x interface{}
+			if json.Unmarshal([]byte(h), &x) == nil || h == "null" {
+				hostile = append(hostile, x)
+			}
+		}
+		grid := 0
+		for _, t := range targets {
+			tree := t.valid(wg)
+			b0, err := json.Marshal(tree)
+			if err != nil {
+				continue
+			}
+			var base interface{}
+			_ = json.Unmarshal(b0, &base)
+			npos := countPositions(base)
+			step := 1
+			if npos > 24 {
+				step = npos / 24
+			}
+			for _, h := range hostile {
+				for pos := -1; pos < npos; pos += step {
+					var variant interface{} = h
+					if pos >= 0 {
+						k := pos
+						variant = substituteAt(base, &k, h)
+					}
+					b, err := json.Marshal(variant)
+					if err != nil {
+						continue
+					}
+					grid++
+					note("decode "+t.name, variant)
+					if _, class, msg := guarded(func() (interface{}, error) { return t.decode(b) }); class == 2 {
+						goFail("decode "+t.name, fmt.Sprintf("decoding %s as %s panics: %s", string(b), t.name, msg), variant)
+					}
+				}
+			}
+		}
+		w.Dist["decode:grid"] = grid
+	}
 	for i := 0; i < nDec; i++ {
 		t := targets[g.Intn(len(targets))]
 		if t.coq == "" && g.Chance(0.5) {
@@ -778,4 +826,56 @@ func c19ClientNotifications(slab *srvLab, dir string, note func(string, interfac
 		}
 	}
 	return nil
+}
+
+// countPositions counts the nodes of a JSON tree; substituteAt returns a copy with the k-th node (pre-order) replaced.
+func countPositions(x interface{}) int {
+	n := 1
+	switch v := x.(type) {
+	case []interface{}:
+		for _, e := range v {
+			n += countPositions(e)
+		}
+	case map[string]interface{}:
+		for _, e := range v {
+			n += countPositions(e)
+		}
+	}
+	return n
+}
+
+func substituteAt(x interface{}, k *int, h interface{}) interface{} {
+	if *k == 0 {
+		*k = -1
+		return h
+	}
+	*k--
+	switch v := x.(type) {
+	case []interface{}:
+		out := make([]interface{}, len(v))
+		for i, e := range v {
+			if *k >= 0 {
+				out[i] = substituteAt(e, k, h)
+			} else {
+				out[i] = e
+			}
+		}
+		return out
+	case map[string]interface{}:
+		keys := make([]string, 0, len(v))
+		for key := range v {
+			keys = append(keys, key)
+		}
+		sort.Strings(keys)
+		out := make(map[string]interface{}, len(v))
+		for _, key := range keys {
+			if *k >= 0 {
+				out[key] = substituteAt(v[key], k, h)
+			} else {
+				out[key] = v[key]
+			}
+		}
+		return out
+	}
+	return x
 }
